@@ -8,7 +8,7 @@ fn check_tileset_head(data: &[u8]) -> bool {
     // flag FILE_INCLUDES_TILES (bit 1) is assumed off by the caller: pixel data goes through zlib (Engine X)
     let got = Tileset::<RawPixels>::parse_chunk(data, PixelFormat::Rgba);
     let decoded_ok = got.is_ok();
-    match (got, fmt::tileset_head(data)) {
+    match (&got, fmt::tileset_head(data)) {
         (Ok(t), Some(w)) => {
             if w.tile_w == 0 || w.tile_h == 0 {
                 assert!(false, "a zero tile size must be rejected (tile lookups divide by it)");
@@ -29,28 +29,33 @@ fn check_tileset_head(data: &[u8]) -> bool {
         (Err(_), Some(w)) => assert!(w.tile_w == 0 || w.tile_h == 0, "decoder rejected a well-formed tileset header"),
         (Ok(_), None) => assert!(false, "decoder accepted a tileset chunk the format rejects"),
     }
+    core::mem::forget(got); // dropping io::Error (bit-packed pointer repr) is very expensive for CBMC
     decoded_ok
 }
 
 macro_rules! tileset_shape {
-    ($hname:ident, $n:expr, $u:expr, $can_ok:expr) => {
+    ($hname:ident, $n:expr, $u:expr, $can_ok:expr, [$([$(($off:expr, $val:expr)),*]),*]) => {
         crate::verif_harness! {
-            /// Tileset::parse_chunk (header part: flag bit 1 clear) on every payload of exactly $n bytes.
+            /// Tileset::parse_chunk (header part: FILE_INCLUDES_TILES clear) on every payload of exactly $n bytes.
+            /// Length fields of strings are pinned to the listed concrete values (one decoder run per pin set); every other byte is symbolic.
             #[kani::stub(std::fmt::format, crate::verif_spec::stubs::format_stub)]
             #[kani::unwind($u)]
             fn $hname(s) {
                 let mut d: [u8; $n] = s.bytes();
-                d[4] &= !2; // FILE_INCLUDES_TILES off
-                let ok = check_tileset_head(&d);
-                crate::vcover!(ok || !$can_ok, "a well-formed payload of this size decodes");
-                crate::vcover!(!ok, "a malformed payload of this size is rejected");
+                d[4] &= !2; // FILE_INCLUDES_TILES off (pixel data goes through zlib: Engine X)
+                $(
+                    $( crate::verif_spec::pin16(&mut d, $off, $val); )*
+                    let ok = check_tileset_head(&d);
+                    crate::vcover!(ok || !$can_ok, "a well-formed payload decodes");
+                    crate::vcover!(!ok, "a malformed payload is rejected");
+                )*
             }
         }
     };
 }
-tileset_shape!(k_tileset_head_34, 34, 16, true); // empty name, no external ref
-tileset_shape!(k_tileset_head_44, 44, 16, true); // 2-byte name + external ref, or 10-byte name
-tileset_shape!(k_tileset_head_33, 33, 16, false); // too short
+tileset_shape!(k_tileset_head_33, 33, 4, false, [[]]); // too short for the name length
+tileset_shape!(k_tileset_head_34, 34, 4, true, [[(32, 0)]]); // empty name
+tileset_shape!(k_tileset_head_44, 44, 5, true, [[(32, 2)], [(32, 0)]]); // 2-byte name + external reference / trailing bytes
 
 crate::verif_harness! {
     /// TileSize::pixels_per_tile == width*height for all u16^2 (fits u32: 65535^2 < 2^32).
